@@ -132,6 +132,28 @@ def perfLines (span : Period) (endDates : List Int) : Option Rat → List DayPer
       if endDates.contains p.date then (p.date, r.map (· - 1)) :: perfLines span endDates (some 1) rest
       else perfLines span endDates r rest
 
+def absR (x : Rat) : Rat := if x < 0 then -x else x
+
+/-- the day's denominator `V0 + inflow` vanishes, exactly or up to one millionth of its operands, while the operands do
+not (or all of them are zero: an empty portfolio): the exact factor is undefined, 1 by the code's special case, or decided
+by the last truncated digits of the values, and the float64 arithmetic
+of the code prints whatever its rounding residues give (`NaN`, `-100.0%`, `0.5%` …).  Used by the harness to tell the
+known finding `returns-meaningless-when-start-value-plus-inflow-vanishes` from anything else. -/
+def illConditioned (p : DayPerf) : Bool :=
+  let v0 := sumVals p.v0
+  let inflow := (if 0 < p.portfolioFlows then p.portfolioFlows else 0) + p.inflow
+  decide (absR (v0 + inflow) * 1000000 ≤ absR v0 + absR inflow)
+
+/-- per printed line of `perfLines`: does the period contain an ill-conditioned day? (same traversal) -/
+def condLines (span : Period) (endDates : List Int) : Bool → List DayPerf → List Bool
+  | _, [] => []
+  | running, p :: rest =>
+    if !span.contains p.date then condLines span endDates running rest
+    else
+      let r := running || illConditioned p
+      if endDates.contains p.date then r :: condLines span endDates false rest
+      else condLines span endDates r rest
+
 /-- the flags of `knut portfolio returns` (and the window flags of `weights`) -/
 structure Flags where
   valuation : Option Commodity := none
@@ -166,5 +188,14 @@ def returns (f : Flags) (ds : List Directive) : Res (List (Int × Option Rat)) :
     match perfFrom f.cfg {} days with
     | .error _ => .error "processing"
     | .ok perfs => .ok (perfLines part.span part.endDates (some 1) perfs)
+
+/-- the ill-conditioning flags of the lines of `returns` -/
+def returnsCond (f : Flags) (ds : List Directive) : List Bool :=
+  match setup f ds with
+  | .ok (part, days) =>
+    match perfFrom f.cfg {} days with
+    | .ok perfs => condLines part.span part.endDates false perfs
+    | .error _ => []
+  | _ => []
 
 end Knut.Performance
